@@ -30,6 +30,24 @@ def run(ctx):
     rng = ctx.rng
     nkeys = 18 if ctx.tier == "quick" else 60
     keys = make_keys(ctx, spec_list(rng, ctx.tier, nkeys), proj)
+    # Seed objects built from 32 bytes (Seed::from): for the truncated hashes the bytes beyond the hash length are not part of
+    # the seed; key generation from such an object must give the key pair of the n-byte seed (and so verify what sign produces)
+    full_cases = []
+    for H in ("S24", "S16", "K24", "K16", "S32"):
+        n = HASHES[H]
+        for ps in ([(3, 1)], [(2, 1), (3, 1)]):
+            full = rng.bytes_(32)
+            line = "keygen H=%s params=%s seedfull=%s aux=none" % (H, params_str(ps), hx(full))
+            full_cases.append(Case(line, "keygen/seed-object-32-bytes", {"spec": (H, ps, full[:n]), "line": line}))
+    for c, a, b in ctx.both(full_cases, proj):
+        H, ps, seed = c.meta["spec"]
+        if a.startswith("ok"):
+            f = fields(a)
+            k = Key(H, ps, seed, unhx(f["sk"]), unhx(f["vk"]))
+            k.keygen_request = c.meta["line"]
+            keys.append(k)
+        else:
+            ctx.fail("keygen from a 32-byte Seed object failed", [c.line], a[:100], "ok")
     sign_cases = []
     for k in keys:
         cs = boundary_counters(k.heights, rng, 2)
@@ -53,4 +71,4 @@ def run(ctx):
         if a != "ok":
             k = c.meta["key"]
             ctx.fail("a released signature does not verify under the public key of the same seed",
-                     [keygen_line(k.H, k.params, k.seed), c.meta["sign"], c.line], a[:200], "ok")
+                     [getattr(k, "keygen_request", keygen_line(k.H, k.params, k.seed)), c.meta["sign"], c.line], a[:200], "ok")
